@@ -59,9 +59,25 @@ def _neg_of(t):
     return None
 
 
-def uf_axioms(apps, max_rounds=3):
+def eq_defs(formulas):
+    """equalities atom == (product | quotient | sum) occurring anywhere in the formulas: callee contracts relate
+    atoms (havoced arrays) to expressions, and the syntactic axiom instances must see through them"""
+    prod, summ = {}, {}
+    for t in walk(formulas):
+        if z3.is_eq(t) and t.arg(0).sort() == R:
+            for a, b in ((t.arg(0), t.arg(1)), (t.arg(1), t.arg(0))):
+                if z3.is_app(a) and a.decl().kind() == z3.Z3_OP_UNINTERPRETED:
+                    if z3.is_mul(b) or z3.is_div(b):
+                        prod.setdefault(a.get_id(), []).append(b)
+                    elif z3.is_add(b) or z3.is_sub(b):
+                        summ.setdefault(a.get_id(), []).append(b)
+    return prod, summ
+
+
+def uf_axioms(apps, max_rounds=3, defs=None):
     """apps: {fname: {id: (args, term)}} -> list of ground axiom instances (z3 Bool terms)"""
     out = []
+    dprod, dsum = defs or ({}, {})
     seen = set()
     work = {k: dict(v) for k, v in apps.items()}
 
@@ -73,6 +89,13 @@ def uf_axioms(apps, max_rounds=3):
             d[t.get_id()] = ([x], t)
         return t
 
+    # anchors: db2lin(0) = 1, lin2db(1) = 0 take part in the pairwise monotonicity instances
+    if 'db2lin' in work or 'lin2db' in work:
+        app('db2lin', z3.RealVal(0))
+        app('lin2db', z3.RealVal(1))
+    if 'exp' in work or 'log' in work:
+        app('exp', z3.RealVal(0))
+        app('log', z3.RealVal(1))
     done = set()
     for _ in range(max_rounds):
         todo = [(f, k, a, t) for f, d in list(work.items()) for k, (a, t) in list(d.items()) if (f, k) not in done]
@@ -86,7 +109,11 @@ def uf_axioms(apps, max_rounds=3):
                 out.append(t > 0)
                 out.append(UF[inv](t) == x)
                 parts = _split_sum(x)
-                if len(parts) > 1 and len(parts) <= 6:
+                for q in [x] + parts:
+                    for rhs in dsum.get(q.get_id(), [])[:2]:
+                        if q.eq(x):
+                            app(f, rhs)
+                if len(parts) > 1 and len(parts) <= 3:
                     prod = None
                     for p in parts:
                         e = app(f, p)
@@ -109,7 +136,11 @@ def uf_axioms(apps, max_rounds=3):
                 inv = LOGLIKE[f]
                 out.append(z3.Implies(x > 0, UF[inv](t) == x))
                 ns, ds = _split_prod(x)
-                if len(ns) + len(ds) > 1 and len(ns) + len(ds) <= 6:
+                for q in ns + ds:
+                    for rhs in dprod.get(q.get_id(), [])[:2]:
+                        # x = .. q .. with q == rhs known: also decompose f(x[q := rhs])
+                        app(f, z3.substitute(x, (q, rhs)))
+                if len(ns) + len(ds) > 1 and len(ns) + len(ds) <= 8:
                     tot = None
                     pos = []
                     for p in ns:
@@ -339,7 +370,7 @@ def build_hyps(engine, pc, univ, idx0, apps0, sums, path=None, goal=None, rounds
             break
     hy = base + inst
     _idx, apps, _occ = collect(hy + extra)
-    hy += uf_axioms(apps)
+    hy += uf_axioms(apps, defs=eq_defs(hy + extra))
     sc = engine.all_strconsts()
     if len(sc) > 1:
         hy.append(z3.Distinct(*sc))
